@@ -8,8 +8,9 @@ Correspondence (Corr/C07.v, model Model/Descent.v executed at Qops, exact ration
     non-increasing;
   * least-squares blocks of tensor_ring_als / coupled_matrix_tensor_3d_factorization (tl.lstsq captured) and of the
     CP / Tucker regressors: normal equations on the implementation's solution, objective not above the previous iterate's.
-Predicates (transcriptions of C07_*_history_monotone on the implementation's outputs): every reported error history /
-recomputed objective history is non-increasing up to 1e-6 in relative-error units."""
+Predicates (transcriptions of C07_*_history_monotone on the implementation's outputs): every reported error history and
+every objective history RECOMPUTED from the iterates (callbacks where the algorithm has one, prefix runs with the same seed
+otherwise) is non-increasing up to 1e-6 in relative-error units; every captured block objective does not increase."""
 import math, random, sys
 import numpy as np
 from harness import common as C
@@ -79,6 +80,19 @@ def lowrank(r, shape, rank, noise, nonneg=False):
     nz = r.rand(*shape) if nonneg else r.randn(*shape)
     X = X + noise * nz * (np.linalg.norm(X) / max(np.linalg.norm(nz), 1e-300))
     return X
+
+
+def dense_problem(r, shape, rank, family):
+    """slowly converging problems (line search jumps get rejected on these): dense noise or nearly collinear components"""
+    if family == "randn":
+        return r.randn(*shape)
+    facs = []
+    for d in shape:
+        base = r.randn(d, 1)
+        facs.append(0.7 * base + 0.3 * r.randn(d, rank))
+    X = cp_full(np.ones(rank), facs)
+    nz = r.randn(*shape)
+    return X + 0.1 * nz * (np.linalg.norm(X) / max(np.linalg.norm(nz), 1e-300))
 
 
 def rand_cp_init(r, shape, rank, nonneg=False, weights=False):
@@ -211,19 +225,50 @@ def hals_objective(G, B, V, l1, l2):
 
 
 # ----------------------------------------------------------------------------- the runs
+BUDGET = {"quick": dict(cp=84, hals=36, ls=32), "thorough": dict(cp=640, hals=300, ls=260)}
+
+
 class Ctx:
     def __init__(self, chk, rng, tier):
         self.chk, self.rng, self.tier = chk, rng, tier
+        self.cands = {"cp": [], "hals": [], "ls": []}     # candidates for the exact (Coq) block check
         self.cases, self.meta = [], []
         self.skipped_illcond = 0
         self.n_cp, self.n_hals, self.n_ls = 0, 0, 0
-        self.raised, self.judged = {}, {}
+        self.raised, self.judged, self.attempts = {}, {}, {}
+        self.py_blocks = 0
+        self.mismatch_notes = 0
 
     def add_case(self, kind, lit_fn, payload, descr):
-        cid = len(self.cases)
-        self.cases.append(lit_fn(cid, payload))
-        self.meta.append((kind, descr, payload))
-        return cid
+        """register a candidate; `select` keeps a budgeted, variant-balanced subset for Coq"""
+        group = (descr["entry"], str(descr["inputs"].get("variant")), descr["inputs"].get("kind"))
+        self.cands[kind].append((group, lit_fn, payload, descr))
+
+    def select(self):
+        lits = {"cp": cp_case_lit, "hals": hals_case_lit, "ls": ls_case_lit}
+        for kind in ("cp", "hals", "ls"):
+            groups = {}
+            for c in self.cands[kind]:
+                groups.setdefault(c[0], []).append(c)
+            order = sorted(groups)
+            budget = BUDGET[self.tier][kind]
+            picked, depth = [], 0
+            while len(picked) < budget and any(len(groups[g]) > depth for g in order):
+                for g in order:
+                    if len(groups[g]) > depth and len(picked) < budget:
+                        picked.append(groups[g][depth])
+                depth += 1
+            for (_, lit_fn, payload, descr) in picked:
+                cid = len(self.cases)
+                self.cases.append(lit_fn(cid, payload))
+                self.meta.append((kind, descr, payload))
+            if kind == "cp": self.n_cp = len(picked)
+            if kind == "hals": self.n_hals = len(picked)
+            if kind == "ls": self.n_ls = len(picked)
+
+
+def attempt(ctx, entry):
+    ctx.attempts[entry] = ctx.attempts.get(entry, 0) + 1
 
 
 def raised(ctx, entry, msg):
@@ -235,7 +280,7 @@ def raised(ctx, entry, msg):
 def history_check(ctx, entry, inputs, errs, what="error history", slack=SLACK):
     chk = ctx.chk
     chk.count(key=(entry, what, inputs.get("shape") and tuple(inputs["shape"]), inputs.get("variant")), nontrivial=len(errs) >= 2)
-    chk.hist("history", entry)
+    chk.hist("history", entry + " / " + what)
     ctx.judged[entry] = ctx.judged.get(entry, 0) + 1
     i = monotone_violation(errs, slack)
     if i is not None:
@@ -245,8 +290,16 @@ def history_check(ctx, entry, inputs, errs, what="error history", slack=SLACK):
     return True
 
 
+def prep_block(b, lam):
+    b = dict(b); b["lam"] = lam; b["rank"] = b["M"].shape[1]; b["cert"] = (b["kind"] == "solve")
+    if b["w"] is None:
+        b["w"] = np.ones(b["rank"])
+    return b
+
+
 def add_cp_blocks(ctx, entry, inputs, cap, lam, max_blocks, max_entries=40):
-    """block-level refinement on captured blocks (first sweep + a later one); python predicate + Coq case"""
+    """block-level refinement: float predicate on EVERY captured block; exact (Coq) check on the first sweep of every
+    mode + one later block of small tensors"""
     chk = ctx.chk
     blocks = cap.blocks
     if not blocks:
@@ -255,24 +308,23 @@ def add_cp_blocks(ctx, entry, inputs, cap, lam, max_blocks, max_entries=40):
     pick = list(range(min(nm, len(blocks))))
     if len(blocks) > nm:
         pick.append(ctx.rng.randrange(nm, len(blocks)))
-    for bi in pick[:max_blocks]:
-        b = dict(blocks[bi]); b["lam"] = lam; b["rank"] = b["M"].shape[1]; b["cert"] = (b["kind"] == "solve")
-        if b["w"] is None:
-            b["w"] = np.ones(b["rank"])
+    pick = set(pick[:max_blocks])
+    for bi, b0 in enumerate(blocks):
+        b = prep_block(b0, lam)
         if b["cond"] > COND_MAX or not np.all(np.isfinite(b["xnew"])):
             ctx.skipped_illcond += 1
             continue
         # python predicate (float): the block objective does not increase
         before, after = block_objective(b, b["facs"][b["mode"]]), block_objective(b, b["xnew"])
         nx = float(np.sum(b["X"] ** 2))
+        ctx.py_blocks += 1
         chk.count(key=(entry, "block", b["X"].shape, b["mode"], inputs.get("variant")), nontrivial=True)
         if not (after <= before + 1e-9 * (before + nx)):
             chk.finding(entry, dict(inputs, block=bi, mode=b["mode"]), f"block objective increases in mode {b['mode']}: {before!r} -> {after!r}",
                         "C07_cp_block_descent", observed=after, expected=f"<= {before!r}")
-        if b["X"].size <= max_entries and b["rank"] <= 3:
+        if bi in pick and b["X"].size <= max_entries and b["rank"] <= 3:
             ctx.add_case("cp", cp_case_lit, b, dict(entry=entry, inputs=dict(inputs, block=bi, mode=b["mode"], kind=b["kind"])))
-            ctx.n_cp += 1
-        if b["kind"] == "hals":
+        if b["kind"] == "hals" and bi in pick:
             add_hals_case(ctx, entry + " (inner hals_nnls)", dict(inputs, block=bi, mode=b["mode"]), b["hals"])
 
 
@@ -287,21 +339,53 @@ def add_hals_case(ctx, entry, inputs, run):
     if len(its) < 2 or G.shape[0] > 3 or its[0].size > 16:
         return
     ctx.add_case("hals", hals_case_lit, dict(run, iterates=its), dict(entry=entry, inputs=inputs))
-    ctx.n_hals += 1
+
+
+def hals_float_check(ctx, entry, inputs, run):
+    """float predicate on a captured hals_nnls run: objective non-increasing over the observed passes, iterates >= epsilon"""
+    G, B, its = run["G"], run["B"], list(run["iterates"])
+    if len(its) < 2 or not np.array_equal(G, G.T):
+        return
+    objs = [hals_objective(G, B, V, run["l1"], run["l2"]) for V in its]
+    scale = float(np.sum(np.abs(B)) + 1.0)
+    i = monotone_violation([o / scale for o in objs], 1e-9)
+    if i is not None and np.all(its[0] >= run["eps"]):
+        ctx.chk.finding(entry, inputs, f"inner hals_nnls objective increases at pass {i}->{i + 1}: {objs[i]!r} -> {objs[i + 1]!r}",
+                        "C07_hals_history_monotone", observed=objs, expected="non-increasing")
+
+
+def cp_objective_rel(X, w, facs, lam=0.0):
+    rank = facs[0].shape[1]
+    w = np.ones(rank) if w is None else np.asarray(w, dtype=float)
+    sq = float(np.sum((X - cp_full(w, facs)) ** 2))
+    if lam:
+        sq += lam * sum(float(np.sum((f * w[None, :]) ** 2)) for f in facs)
+    return math.sqrt(max(sq, 0.0)) / float(np.linalg.norm(X))
+
+
+PARAFAC_VARIANTS = ["plain", "normalize", "svd", "userinit", "l2", "linesearch", "fixed0", "normalize+userw", "linesearch+normalize",
+                    "l2+normalize", "linesearch+dense", "fixed0+normalize", "linesearch+dense", "l2+normalize+userw", "fixed01", "linesearch+dense+normalize"]
 
 
 def run_parafac(ctx, n_runs):
     import tensorly as tl
     from tensorly.decomposition import _cp
     chk, rng = ctx.chk, ctx.rng
+    entry = "tensorly.decomposition.parafac"
     shapes = [(3, 4), (4, 3), (2, 3, 4), (3, 3, 3), (4, 2, 3), (2, 2, 3, 3), (3, 2, 2, 2), (5, 4, 3), (6, 5)]
-    variants = ["plain", "normalize", "svd", "userinit", "l2", "linesearch", "fixed0", "normalize+userw", "linesearch+normalize"]
+    dense_shapes = [(4, 3, 3), (5, 4, 3), (3, 3, 2, 2), (6, 5), (3, 4, 3)]
+    variants = PARAFAC_VARIANTS
     for it in range(n_runs):
-        shape = shapes[it % len(shapes)] if it < 2 * len(shapes) else rng.choice(shapes)
         variant = variants[it % len(variants)]
-        rank = rng.choice([1, 2, 2, 2]) if min(shape) >= 2 else 1
+        dense = "dense" in variant
+        if dense:
+            shape = dense_shapes[(it // len(variants)) % len(dense_shapes)] if rng.random() < 0.5 else rng.choice(dense_shapes)
+            rank = rng.choice([2, 3])
+        else:
+            shape = shapes[it % len(shapes)] if it < 2 * len(shapes) else rng.choice(shapes)
+            rank = rng.choice([1, 2, 2, 2]) if min(shape) >= 2 else 1
         r = np_rng(rng)
-        X = lowrank(r, shape, rank, rng.choice([0.0, 0.05, 0.3]))
+        X = dense_problem(r, shape, rank, rng.choice(["randn", "collinear"])) if dense else lowrank(r, shape, rank, rng.choice([0.0, 0.05, 0.3]))
         kw = dict(n_iter_max=8, tol=0, return_errors=True, init="random", random_state=r.randint(1 << 30))
         lam = 0.0
         if "normalize" in variant: kw["normalize_factors"] = True
@@ -309,36 +393,35 @@ def run_parafac(ctx, n_runs):
         if "user" in variant:
             w, facs = rand_cp_init(r, shape, rank, weights=("userw" in variant))
             kw["init"] = tl.cp_tensor.CPTensor((w, facs))
-        if variant == "l2": lam = 0.1; kw["l2_reg"] = lam
-        if "linesearch" in variant: kw["linesearch"] = True; kw["n_iter_max"] = 14
-        if variant == "fixed0" and len(shape) >= 3: kw["fixed_modes"] = [0]
+        if variant.startswith("l2"): lam = rng.choice([0.1, 0.5]); kw["l2_reg"] = lam
+        if "linesearch" in variant: kw["linesearch"] = True; kw["n_iter_max"] = 30 if dense else 14
+        if variant.startswith("fixed0") and len(shape) >= 3: kw["fixed_modes"] = [0, 1] if (variant == "fixed01") else [0]
         inputs = dict(shape=list(shape), rank=rank, variant=variant, tensor=X, options={k: (v if not hasattr(v, "factors") else "CPTensor") for k, v in kw.items()},
                       init=(None if "user" not in variant else [kw["init"][0]] + list(kw["init"][1])))
+        iterates = []
+
+        def cb(cp, err):
+            wts, fs = cp
+            iterates.append((None if wts is None else np.array(wts, dtype=float), [np.array(f, dtype=float) for f in fs]))
+        attempt(ctx, entry)
         with Capture() as cap:
-            out = C.call_impl(_cp.parafac, X.copy(), rank, **kw)
+            out = C.call_impl(_cp.parafac, X.copy(), rank, callback=cb, **kw)
         chk.hist("algorithm", "parafac:" + variant); chk.hist("order", len(shape))
         if out[0] != "ok":
-            raised(ctx, "tensorly.decomposition.parafac", out[1])
+            raised(ctx, entry, out[1])
             continue
         (_, errs) = out[1]
         if cap.maxcond > COND_MAX:
             ctx.skipped_illcond += 1
             continue
         if lam == 0.0:
-            history_check(ctx, "tensorly.decomposition.parafac", inputs, errs)
-            # the reported error is the objective of the model: sqrt(block objective after the last block)/||X||
-        add_cp_blocks(ctx, "tensorly.decomposition.parafac", inputs, cap, lam, max_blocks=4 if ctx.tier == "quick" else 6)
-        # reported error == model objective at the last block of the first sweep (ties the history to cp_obj)
-        if lam == 0.0 and cap.blocks and errs:
-            nm = len({b["mode"] for b in cap.blocks})
-            if nm <= len(cap.blocks):
-                b = dict(cap.blocks[nm - 1]); b["lam"] = 0.0; b["rank"] = b["M"].shape[1]
-                if b["w"] is None: b["w"] = np.ones(b["rank"])
-                obj = block_objective(b, b["xnew"])
-                rep = float(errs[0]) * float(np.linalg.norm(X))
-                if abs(math.sqrt(max(obj, 0.0)) - rep) > 1e-6 * float(np.linalg.norm(X)):
-                    chk.finding("tensorly.decomposition.parafac", inputs,
-                                f"reported error {rep!r} is not the block objective sqrt({obj!r}) after the first sweep", "C07_reported_error_is_objective")
+            history_check(ctx, entry, inputs, errs)
+        # objective recomputed from the iterates handed to the callback (initial guess first): ||X - [[w; A..]]||^2 (+ the
+        # ridge terms of all modes; a renormalisation changes those, so with l2_reg and normalize_factors only blocks are judged)
+        if iterates and not (lam and "normalize" in variant):
+            objs = [cp_objective_rel(X, wts, fs, lam) for (wts, fs) in iterates]
+            history_check(ctx, entry, inputs, objs, what="objective recomputed from callback iterates")
+        add_cp_blocks(ctx, entry, inputs, cap, lam, max_blocks=4 if ctx.tier == "quick" else 6)
         if it < 3:
             chk.sample(dict(algorithm="parafac", variant=variant, shape=list(shape), rank=rank, errors=[float(e) for e in errs][:6], blocks=len(cap.blocks)))
 
@@ -346,41 +429,75 @@ def run_parafac(ctx, n_runs):
 def run_nn_hals(ctx, n_runs):
     from tensorly.decomposition import _nn_cp
     chk, rng = ctx.chk, ctx.rng
+    entry = "tensorly.decomposition.non_negative_parafac_hals"
     shapes = [(3, 4), (2, 3, 4), (3, 3, 2), (2, 2, 2, 3), (4, 3, 3)]
+    variants = ["all", "nn0", "sparse", "normalize", "fixed1", "fixedlast", "nn02+normalize", "sparse+nn0", "fixed0+normalize"]
     for it in range(n_runs):
         shape = shapes[it % len(shapes)]
         rank = rng.choice([1, 2, 2])
-        variant = ["all", "nn0", "sparse", "normalize"][it % 4]
+        variant = variants[it % len(variants)]
         r = np_rng(rng)
         X = lowrank(r, shape, rank, rng.choice([0.0, 0.1]), nonneg=True)
-        kw = dict(n_iter_max=6, tol=1e-300, return_errors=True, init="random", random_state=r.randint(1 << 30))
-        if variant == "nn0": kw["nn_modes"] = [0]
-        if variant == "sparse": kw["sparsity_coefficients"] = [0.05] * len(shape)
-        if variant == "normalize": kw["normalize_factors"] = True
+        nd = len(shape)
+        kw = dict(tol=1e-300, return_errors=True, init="random", random_state=r.randint(1 << 30))
+        if "nn02" in variant: kw["nn_modes"] = [0, nd - 1]
+        elif "nn0" in variant: kw["nn_modes"] = [0]
+        sparsity = None
+        if "sparse" in variant:
+            sparsity = [rng.choice([0.05, 0.2]) for _ in shape]
+            kw["sparsity_coefficients"] = list(sparsity)
+        if "normalize" in variant: kw["normalize_factors"] = True
+        if "fixed1" in variant: kw["fixed_modes"] = [1]
+        if "fixedlast" in variant: kw["fixed_modes"] = [nd - 1]
+        if "fixed0" in variant: kw["fixed_modes"] = [0]
         inputs = dict(shape=list(shape), rank=rank, variant=variant, tensor=X, options=kw)
+        attempt(ctx, entry)
         with Capture() as cap:
-            out = C.call_impl(_nn_cp.non_negative_parafac_hals, X.copy(), rank, **kw)
-        chk.hist("algorithm", "non_negative_parafac_hals:" + variant); chk.hist("order", len(shape))
+            out = C.call_impl(_nn_cp.non_negative_parafac_hals, X.copy(), rank, n_iter_max=6, **kw)
+        chk.hist("algorithm", "non_negative_parafac_hals:" + variant); chk.hist("order", nd)
         if out[0] != "ok":
-            raised(ctx, "tensorly.decomposition.non_negative_parafac_hals", out[1])
+            raised(ctx, entry, out[1])
             continue
         (_, errs) = out[1]
         if cap.maxcond > COND_MAX:
             ctx.skipped_illcond += 1
             continue
-        if variant != "sparse":   # with an l1 term the reported reconstruction error is not the objective
-            history_check(ctx, "tensorly.decomposition.non_negative_parafac_hals", inputs, errs)
-        if variant != "sparse":
-            add_cp_blocks(ctx, "tensorly.decomposition.non_negative_parafac_hals", inputs, cap, 0.0, max_blocks=3)
+        if sparsity is None:   # with an l1 term the reported reconstruction error is not the objective
+            history_check(ctx, entry, inputs, errs)
+        # objective recomputed from prefix runs (same seed => same trajectory):
+        #   1/2 ||X - [[w; A..]]||^2 + sum over the non-negative modes of sparsity_k * sum(A_k)
+        nn = set(range(nd)) if "nn_modes" not in kw else set(kw["nn_modes"])
+        fixed = set(kw.get("fixed_modes", []))
+        objs, ok = [], True
+        if not ("sparse" in variant and "normalize" in variant):
+            for nit in range(1, 6):
+                o2 = C.call_impl(_nn_cp.non_negative_parafac_hals, X.copy(), rank, n_iter_max=nit, **kw)
+                if o2[0] != "ok":
+                    ok = False; break
+                (wts, fs), _ = o2[1]
+                fs = [np.asarray(f, dtype=float) for f in fs]
+                val = 0.5 * float(np.sum((X - cp_full(None if wts is None else np.asarray(wts, dtype=float), fs)) ** 2))
+                if sparsity is not None:
+                    val += sum(sparsity[k] * float(np.sum(fs[k])) for k in range(nd) if k in nn and k not in fixed)
+                objs.append(val)
+            if ok and objs:
+                n2 = 0.5 * float(np.sum(X ** 2))
+                history_check(ctx, entry, inputs, [math.sqrt(max(o, 0.0) / n2) for o in objs] if sparsity is None else [o / n2 for o in objs],
+                              what="objective recomputed from prefix runs")
+        for hb in cap.halsruns:
+            hals_float_check(ctx, entry + " (inner hals_nnls)", inputs, hb)
+        if sparsity is None:
+            add_cp_blocks(ctx, entry, inputs, cap, 0.0, max_blocks=3)
         else:
             for b in cap.blocks[:2]:
                 if b["kind"] == "hals":
-                    add_hals_case(ctx, "tensorly.decomposition.non_negative_parafac_hals (inner hals_nnls)", dict(inputs, mode=b["mode"]), b["hals"])
+                    add_hals_case(ctx, entry + " (inner hals_nnls)", dict(inputs, mode=b["mode"]), b["hals"])
 
 
 def run_hals_nnls(ctx, n_runs):
     from tensorly.solvers.nnls import hals_nnls
     chk, rng = ctx.chk, ctx.rng
+    entry = "tensorly.solvers.nnls.hals_nnls"
     for it in range(n_runs):
         r = np_rng(rng)
         m, rk, n = rng.choice([3, 4, 5]), rng.choice([1, 2, 3]), rng.choice([1, 2, 4])
@@ -388,151 +505,212 @@ def run_hals_nnls(ctx, n_runs):
         zero_col = (it % 7 == 3 and rk >= 2)
         if zero_col: U[:, 1] = 0.0
         M = r.rand(m, n) if it % 3 else U @ (r.rand(rk, n) + 0.1)
+        if it % 5 == 4: M = M - 0.6            # right-hand sides of mixed sign: the clipping is active
         G = U.T @ U; G = (G + G.T) / 2
         B = U.T @ M
         l1 = [None, 0.1, None, 0.3][it % 4]
         l2 = [None, None, 0.2, 0.05][(it // 2) % 4]
         eps = [0.0, 0.0, 0.01][it % 3]
+        default_init = (it % 6 == 5 and not zero_col)      # V=None: solve + clip + rescale inside hals_nnls
         V0 = r.rand(rk, n) + eps + 0.05
-        its = [V0.copy()]
+        its = [] if default_init else [V0.copy()]
         kw = dict(n_iter_max=4, tol=0, sparsity_coefficient=l1, ridge_coefficient=l2, epsilon=eps)
-        inputs = dict(UtU=G, UtM=B, V0=V0, options=kw)
-        out = C.call_impl(lambda: hals_nnls(B.copy(), G.copy(), V0.copy(), callback=lambda V, e: its.append(np.array(V, dtype=float)) and None, **kw))
+        inputs = dict(UtU=G, UtM=B, V0=None if default_init else V0, options=kw)
+        attempt(ctx, entry)
+        out = C.call_impl(lambda: hals_nnls(B.copy(), G.copy(), None if default_init else V0.copy(),
+                                            callback=lambda V, e: its.append(np.array(V, dtype=float)) and None, **kw))
         chk.hist("algorithm", "hals_nnls")
         if out[0] != "ok":
-            raised(ctx, "tensorly.solvers.nnls.hals_nnls", out[1]); continue
-        ctx.judged["tensorly.solvers.nnls.hals_nnls"] = ctx.judged.get("tensorly.solvers.nnls.hals_nnls", 0) + 1
+            raised(ctx, entry, out[1]); continue
+        ctx.judged[entry] = ctx.judged.get(entry, 0) + 1
         objs = [hals_objective(G, B, V, l1 or 0.0, l2 or 0.0) for V in its]
         scale = float(np.sum(np.abs(B)) + 1.0)
-        chk.count(key=("hals_nnls", m, rk, n, l1, l2, eps, zero_col), nontrivial=True)
+        chk.count(key=("hals_nnls", m, rk, n, l1, l2, eps, zero_col, default_init), nontrivial=True)
         i = monotone_violation([o / scale for o in objs], 1e-9)
         if i is not None:
-            chk.finding("tensorly.solvers.nnls.hals_nnls", inputs, f"objective increases at pass {i}->{i + 1}: {objs[i]!r} -> {objs[i + 1]!r}",
+            chk.finding(entry, inputs, f"objective increases at pass {i}->{i + 1}: {objs[i]!r} -> {objs[i + 1]!r}",
                         "C07_hals_history_monotone", observed=objs, expected="non-increasing")
         if any(np.any(V < eps) for V in its[1:]):
-            chk.finding("tensorly.solvers.nnls.hals_nnls", inputs, "iterate below epsilon", "C07_hals_feasible")
-        add_hals_case(ctx, "tensorly.solvers.nnls.hals_nnls", inputs, dict(G=G, B=B, iterates=its, l1=l1 or 0.0, l2=l2 or 0.0, eps=eps))
+            chk.finding(entry, inputs, "iterate below epsilon", "C07_hals_feasible")
+        add_hals_case(ctx, entry, inputs, dict(G=G, B=B, iterates=its, l1=l1 or 0.0, l2=l2 or 0.0, eps=eps))
 
 
 def run_tucker(ctx, n_runs):
+    import tensorly as tl
     from tensorly.decomposition import _tucker
     chk, rng = ctx.chk, ctx.rng
-    shapes = [(4, 3), (3, 4, 3), (4, 4, 3), (3, 3, 2, 3), (5, 4, 4)]
+    shapes = [(4, 3), (3, 4, 3), (4, 4, 3), (3, 3, 2, 3), (5, 4, 4), (4, 3, 5)]
     for it in range(n_runs):
         shape = shapes[it % len(shapes)]
+        nd = len(shape)
         r = np_rng(rng)
         X = lowrank(r, shape, 2, rng.choice([0.1, 0.5])) + 0.3 * r.randn(*shape)
-        ranks = [rng.choice([1, 2]) if d > 2 else rng.choice([1, 2]) for d in shape]
         init = ["svd", "random"][it % 2]
-        kw = dict(rank=ranks, n_iter_max=8, tol=0, init=init, random_state=r.randint(1 << 30))
-        inputs = dict(shape=list(shape), rank=ranks, variant=init, tensor=X, options=kw)
-        out = C.call_impl(_tucker.tucker, X.copy(), return_errors=True, **kw)
-        chk.hist("algorithm", "tucker:" + init); chk.hist("order", len(shape))
+        partial = (it % 3 == 2 and nd >= 3)
+        if partial:     # partial_tucker on a proper subset of the modes, in any order
+            modes = rng.sample(range(nd), rng.choice([1, 2]) if nd == 3 else rng.choice([2, 3]))
+            if rng.random() < 0.5: modes = sorted(modes)
+            ranks = [rng.choice([1, 2]) for _ in modes]
+            fn, entry = _tucker.partial_tucker, "tensorly.decomposition.partial_tucker"
+            kw = dict(rank=ranks, modes=list(modes), tol=0, init=init, random_state=r.randint(1 << 30))
+        else:
+            modes = list(range(nd))
+            ranks = [rng.choice([1, 2]) for _ in shape]
+            fn, entry = _tucker.tucker, "tensorly.decomposition.tucker"
+            kw = dict(rank=ranks, tol=0, init=init, random_state=r.randint(1 << 30), return_errors=True)
+        inputs = dict(shape=list(shape), rank=ranks, variant=init + ("+partial" + str(list(modes)) if partial else ""), tensor=X, options=kw)
+        attempt(ctx, entry)
+        out = C.call_impl(fn, X.copy(), n_iter_max=8, **kw)
+        chk.hist("algorithm", ("partial_tucker:" if partial else "tucker:") + init); chk.hist("order", nd)
         if out[0] != "ok":
-            raised(ctx, "tensorly.decomposition.tucker", out[1]); continue
-        history_check(ctx, "tensorly.decomposition.tucker", inputs, out[1][1])
+            raised(ctx, entry, out[1]); continue
+        history_check(ctx, entry, inputs, out[1][1])
+        # objective recomputed from prefix runs: || X - core x_modes factors || / ||X||
+        objs, ok = [], True
+        for nit in range(1, 6):
+            o2 = C.call_impl(fn, X.copy(), n_iter_max=nit, **kw)
+            if o2[0] != "ok":
+                ok = False; break
+            (core, facs), _ = o2[1]
+            rec = tl.tenalg.multi_mode_dot(np.asarray(core), [np.asarray(f) for f in facs], modes=list(modes))
+            objs.append(float(np.linalg.norm(X - np.asarray(rec))) / float(np.linalg.norm(X)))
+        if ok:
+            history_check(ctx, entry, inputs, objs, what="objective recomputed from prefix runs")
 
 
 def run_parafac2(ctx, n_runs):
     from tensorly.decomposition import _parafac2
+    from tensorly.parafac2_tensor import parafac2_to_slices
     chk, rng = ctx.chk, ctx.rng
+    entry = "tensorly.decomposition.parafac2"
     for it in range(n_runs):
         r = np_rng(rng)
-        I, J, K, rank = rng.choice([3, 4]), rng.choice([4, 5]), rng.choice([3, 4]), rng.choice([1, 2])
-        variant = ["plain", "linesearch", "nn", "nn+linesearch"][it % 4]
+        I, J, K, rank = rng.choice([3, 4]), rng.choice([4, 5]), rng.choice([3, 4]), rng.choice([1, 2, 2])
+        variant = ["plain", "linesearch", "nn", "nn+linesearch", "normalize"][it % 5]
         nonneg = "nn" in variant
-        A = r.rand(I, rank) + 0.3
+        A = (r.rand(I, rank) + 0.3) * (1 if nonneg else r.choice([-1.0, 1.0], size=(I, rank)))
         Bm = r.rand(rank, rank) + np.eye(rank)
         Cm = (r.rand(K, rank) + 0.1) if nonneg else r.randn(K, rank)
         slices = []
         for i in range(I):
             P, _ = np.linalg.qr(r.randn(J, rank))
             S = (P @ Bm) @ np.diag(A[i]) @ Cm.T
-            slices.append(S + 0.1 * np.linalg.norm(S) / math.sqrt(S.size) * r.randn(J, K))
-        kw = dict(n_iter_max=12 if "linesearch" in variant else 8, tol=1e-300, init="random", random_state=r.randint(1 << 30),
-                  linesearch=("linesearch" in variant), return_errors=True)
+            slices.append(S + rng.choice([0.1, 0.4]) * np.linalg.norm(S) / math.sqrt(S.size) * r.randn(J, K))
+        ls = "linesearch" in variant
+        kw = dict(tol=1e-300, init="random", random_state=r.randint(1 << 30), linesearch=ls, return_errors=True)
         if nonneg: kw["nn_modes"] = [0, 2]
+        if variant == "normalize": kw["normalize_factors"] = True
+        nmax = 14 if ls else 7
         inputs = dict(shape=[I, J, K], rank=rank, variant=variant, slices=slices, options=kw)
-        out = C.call_impl(_parafac2.parafac2, [s.copy() for s in slices], rank, timeout=60, **kw)
+        attempt(ctx, entry)
+        out = C.call_impl(_parafac2.parafac2, [s.copy() for s in slices], rank, n_iter_max=nmax, timeout=60, **kw)
         chk.hist("algorithm", "parafac2:" + variant)
         if out[0] != "ok":
-            raised(ctx, "tensorly.decomposition.parafac2", out[1]); continue
-        history_check(ctx, "tensorly.decomposition.parafac2", inputs, out[1][1])
-
-
-def tr_sol_form(core):
-    return np.reshape(np.transpose(core, [0, 2, 1]), (-1, core.shape[1]))
+            raised(ctx, entry, out[1]); continue
+        history_check(ctx, entry, inputs, out[1][1])
+        # objective recomputed from prefix runs: sqrt(sum_i ||X_i - P_i B diag(a_i) C'||^2) / ||X||
+        n2 = math.sqrt(sum(float(np.sum(sl ** 2)) for sl in slices))
+        objs, ok = [], True
+        prefixes = list(range(1, nmax + 1)) if (ctx.tier != "quick" or it % 2 == 0) else list(range(1, 5))
+        for nit in prefixes:
+            o2 = C.call_impl(_parafac2.parafac2, [s.copy() for s in slices], rank, n_iter_max=nit, timeout=60, **kw)
+            if o2[0] != "ok":
+                ok = False; break
+            rec = parafac2_to_slices(o2[1][0])
+            objs.append(math.sqrt(sum(float(np.sum((np.asarray(a) - np.asarray(b)) ** 2)) for a, b in zip(slices, rec))) / n2)
+        if ok:
+            history_check(ctx, entry, inputs, objs, what="objective recomputed from prefix runs")
 
 
 def run_tr_als(ctx, n_runs):
+    import tensorly as tl
     from tensorly.decomposition import _tr_als
     chk, rng = ctx.chk, ctx.rng
-    shapes = [(3, 3, 3), (4, 3, 2), (3, 2, 2, 3), (4, 4, 3)]
+    entry = "tensorly.decomposition.tensor_ring_als"
+    shapes = [(3, 3, 3), (4, 3, 2), (3, 2, 2, 3), (4, 4, 3), (2, 3, 4)]
     for it in range(n_runs):
         shape = shapes[it % len(shapes)]
+        nd = len(shape)
         r = np_rng(rng)
-        rank = [1, 2][it % 2] if it % 3 else [2] + [1] * (len(shape) - 1) + [2]
+        if it % 3 == 0: rank = [2] + [1] * (nd - 1) + [2]
+        elif it % 3 == 1: rank = [1, 2] + [1] * (nd - 2) + [1] if it % 2 else [2, 1, 2] + [2] * (nd - 3) + [2]
+        else: rank = [1, 2][it % 2]
         X = r.randn(*shape)
         variant = ["lstsq", "normal_eq"][it % 2]
         errs, cores = [], []
         kw = dict(ls_solve=variant, n_iter_max=5, tol=0, random_state=r.randint(1 << 30))
         inputs = dict(shape=list(shape), rank=rank, variant=variant, tensor=X, options=kw)
+        attempt(ctx, entry)
         with Capture() as cap:
             out = C.call_impl(_tr_als.tensor_ring_als, X.copy(), rank,
                               callback=lambda tr, e: (errs.append(float(e)), cores.append([np.array(c, dtype=float) for c in tr])) and None, **kw)
-        chk.hist("algorithm", "tensor_ring_als:" + variant); chk.hist("order", len(shape))
+        chk.hist("algorithm", "tensor_ring_als:" + variant); chk.hist("order", nd)
         if out[0] != "ok":
-            raised(ctx, "tensorly.decomposition.tensor_ring_als", out[1]); continue
+            raised(ctx, entry, out[1]); continue
         if cap.maxcond > COND_MAX:
             ctx.skipped_illcond += 1; continue
-        history_check(ctx, "tensorly.decomposition.tensor_ring_als", inputs, errs)
-        nd = len(shape)
+        history_check(ctx, entry, inputs, errs)
+        # objective recomputed from the cores handed to the callback (initial guess first)
+        nx = float(np.linalg.norm(X))
+        objs = [float(np.linalg.norm(np.asarray(tl.tr_to_tensor(cs)) - X)) / nx for cs in cores]
+        history_check(ctx, entry, inputs, objs, what="objective recomputed from callback iterates")
         n_sw = len(cap.lstsq) // nd
-        off = len(cores) - n_sw          # 1 if the callback also reports the initial guess
-        if variant == "lstsq" and n_sw >= 2 and len(cap.lstsq) == nd * n_sw and off in (0, 1) and len(cores) >= 2 + off:
+        if variant == "lstsq" and n_sw >= 2 and len(cap.lstsq) == nd * n_sw:
             for d in ([rng.randrange(nd)] if ctx.tier == "quick" else range(nd)):
-                rec = cap.lstsq[nd + d]     # second sweep, block d
-                if rec["A"].size > 64 or rec["Y"].size > 48:
+                sw = rng.randrange(1, n_sw)
+                rec, before = cap.lstsq[sw * nd + d], cap.lstsq[(sw - 1) * nd + d]     # block d of sweep sw / of the sweep before
+                if rec["A"].size > 64 or rec["Y"].size > 48 or before["X"].shape != rec["X"].shape:
                     continue
-                prev, new = tr_sol_form(cores[off][d]), tr_sol_form(cores[off + 1][d])
-                if new.shape != rec["X"].shape or not np.allclose(new, rec["X"], rtol=1e-10, atol=1e-12):
-                    prev = rec["X"]     # layout of the unknowns is not the one assumed here: certificate only
-                ctx.add_case("ls", ls_case_lit, dict(A=rec["A"], Y=rec["Y"], X=rec["X"], prev=prev, lam=0.0),
-                             dict(entry="tensorly.decomposition.tensor_ring_als", inputs=dict(inputs, block=d)))
-                ctx.n_ls += 1
+                ctx.add_case("ls", ls_case_lit, dict(A=rec["A"], Y=rec["Y"], X=rec["X"], prev=before["X"], lam=0.0),
+                             dict(entry=entry, inputs=dict(inputs, block=d, sweep=sw)))
 
 
 def run_cmtf(ctx, n_runs):
     from tensorly.decomposition import _cmtf_als
     chk, rng = ctx.chk, ctx.rng
+    entry = "tensorly.decomposition.coupled_matrix_tensor_3d_factorization"
     for it in range(n_runs):
         r = np_rng(rng)
-        shape = rng.choice([(3, 3, 2), (4, 3, 3), (3, 2, 4)])
+        shape = rng.choice([(3, 3, 2), (4, 3, 3), (3, 2, 4), (3, 3, 3), (2, 2, 3)])
         q, rank = rng.choice([2, 3]), rng.choice([1, 2])
         w, facs = rand_cp_init(r, shape, rank)
-        X = cp_full(w, facs) + 0.1 * r.randn(*shape)
+        X = cp_full(w, facs) + rng.choice([0.1, 0.4]) * r.randn(*shape)
         Y = facs[0] @ r.randn(rank, q) + 0.1 * r.randn(shape[0], q)
         np.random.seed(r.randint(1 << 30))     # initialize_cp(init='random') without random_state uses the global generator
         init = ["svd", "random"][it % 2]
         if init == "svd" and rank > min(min(shape), q): init = "random"
-        kw = dict(init=init, n_iter_max=8, tol_rel=0, tol_abs=0) if False else dict(init=init, n_iter_max=8, tol=0)
+        kw = dict(init=init, n_iter_max=8, tol=0)
         inputs = dict(shape=list(shape), rank=rank, variant=init, tensor=X, matrix=Y, options=kw)
+        attempt(ctx, entry)
         with Capture() as cap:
             out = C.call_impl(_cmtf_als.coupled_matrix_tensor_3d_factorization, X.copy(), Y.copy(), rank, **kw)
         chk.hist("algorithm", "cmtf:" + init)
         if out[0] != "ok":
-            raised(ctx, "tensorly.decomposition.coupled_matrix_tensor_3d_factorization", out[1]); continue
+            raised(ctx, entry, out[1]); continue
         if cap.maxcond > COND_MAX:
             ctx.skipped_illcond += 1; continue
         errs = out[1][2]
         n2 = float(np.sum(X ** 2) + np.sum(Y ** 2))
-        history_check(ctx, "tensorly.decomposition.coupled_matrix_tensor_3d_factorization", inputs, [math.sqrt(max(float(e), 0.0) / n2) for e in errs])
-        if cap.lstsq:
-            rec = cap.lstsq[rng.randrange(min(len(cap.lstsq), 8))]
-            if rec["A"].size <= 64 and rec["Y"].size <= 48:
-                ctx.add_case("ls", ls_case_lit, dict(A=rec["A"], Y=rec["Y"], X=rec["X"], prev=rec["X"], lam=0.0),
-                             dict(entry="tensorly.decomposition.coupled_matrix_tensor_3d_factorization", inputs=inputs))
-                ctx.n_ls += 1
+        history_check(ctx, entry, inputs, [math.sqrt(max(float(e), 0.0) / n2) for e in errs])
+        # least-squares blocks: per sweep 4 lstsq calls (V, mode 2, mode 1, coupled mode 0); the iterate before a block is the
+        # solution of the same slot one sweep earlier
+        per = 4
+        if len(cap.lstsq) >= 2 * per and len(cap.lstsq) % per == 0:
+            # float predicate on every block of every sweep after the first
+            for j in range(per, len(cap.lstsq)):
+                rec, before = cap.lstsq[j], cap.lstsq[j - per]
+                if before["X"].shape != rec["X"].shape:
+                    continue
+                oa = float(np.sum((rec["A"] @ rec["X"] - rec["Y"]) ** 2)); ob = float(np.sum((rec["A"] @ before["X"] - rec["Y"]) ** 2))
+                ctx.py_blocks += 1
+                if not (oa <= ob + 1e-9 * (ob + float(np.sum(rec["Y"] ** 2)))):
+                    chk.finding(entry, dict(inputs, block=j), f"least-squares block objective increases: {ob!r} -> {oa!r}", "C07_ls_block_minimises")
+            for _ in range(1 if ctx.tier == "quick" else 3):
+                j = rng.randrange(per, len(cap.lstsq))
+                rec, before = cap.lstsq[j], cap.lstsq[j - per]
+                if rec["A"].size <= 64 and rec["Y"].size <= 60 and before["X"].shape == rec["X"].shape:
+                    ctx.add_case("ls", ls_case_lit, dict(A=rec["A"], Y=rec["Y"], X=rec["X"], prev=before["X"], lam=0.0),
+                                 dict(entry=entry, inputs=dict(inputs, block=j)))
 
 
 def run_regressors(ctx, n_runs):
@@ -542,21 +720,23 @@ def run_regressors(ctx, n_runs):
     chk, rng = ctx.chk, ctx.rng
     for it in range(n_runs):
         r = np_rng(rng)
-        kind = ["cp", "tucker"][it % 2]
+        kind = ["cp", "tucker", "cp-multi"][it % 3]       # cp-multi: matrix-valued responses (the branch of the output modes)
         dims = rng.choice([(3, 2), (2, 3), (2, 2, 2)])
         ns = 12
         Xs = r.randn(ns, *dims)
-        Wtrue = r.randn(*dims)
-        y = np.tensordot(Xs, Wtrue, axes=len(dims)) + 0.1 * r.randn(ns)
-        reg = rng.choice([0.5, 1.0])
+        odims = (rng.choice([2, 3]),) if kind == "cp-multi" else ()
+        Wtrue = r.randn(*dims, *odims)
+        y = np.tensordot(Xs, Wtrue, axes=len(dims)) + 0.1 * r.randn(ns, *odims)
+        reg = rng.choice([0.5, 1.0, 3.0])
         seed = r.randint(1 << 30)
         objs = []
         inputs = dict(kind=kind, shape=list(dims), variant=kind, X=Xs, y=y, reg_W=reg, random_state=seed)
-        entry = "tensorly.regression." + ("CPRegressor" if kind == "cp" else "TuckerRegressor") + ".fit"
+        entry = "tensorly.regression." + ("TuckerRegressor" if kind == "tucker" else "CPRegressor") + ".fit"
         ok = True
         lscap = None
+        attempt(ctx, entry)
         for nit in range(1, 6):     # prefix runs: same seed => same trajectory
-            if kind == "cp":
+            if kind != "tucker":
                 est = CPRegressor(weight_rank=2, tol=0, reg_W=reg, n_iter_max=nit, random_state=seed, verbose=0)
             else:
                 est = TuckerRegressor(weight_ranks=[2] * len(dims), tol=0, reg_W=reg, n_iter_max=nit, random_state=seed, verbose=0)
@@ -564,14 +744,14 @@ def run_regressors(ctx, n_runs):
                 out = C.call_impl(est.fit, Xs.copy(), y.copy())
             if out[0] != "ok":
                 raised(ctx, entry, out[1]); ok = False; break
-            if nit == 2:
+            if nit == 3:
                 lscap = cap
-            if kind == "cp":
+            if kind != "tucker":
                 w, W = est.cp_weight_
                 pen = sum(float(np.sum(np.asarray(f) ** 2)) for f in W)
             else:
                 G, W = est.tucker_weight_
-                pen = None
+                pen = sum(float(np.sum(np.asarray(f) ** 2)) for f in W) + float(np.sum(np.asarray(G) ** 2))
             pred = np.tensordot(Xs, np.asarray(est.weight_tensor_), axes=len(dims))
             fit = float(np.sum((y - pred) ** 2))
             objs.append((fit, pen))
@@ -579,21 +759,30 @@ def run_regressors(ctx, n_runs):
         if not ok:
             continue
         ctx.judged[entry] = ctx.judged.get(entry, 0) + 1
-        if kind == "cp":
-            # ridge ALS objective: ||y - <X, W>||^2 + reg * sum_i ||W_i||_F^2, non-increasing over sweeps
-            ny = float(np.sum(y ** 2))
-            hist = [math.sqrt((f + reg * p) / ny) for f, p in objs]
-            history_check(ctx, entry, inputs, hist, what="ridge objective (prefix runs)")
+        # ridge ALS objective: ||y - <X, W>||^2 + reg * (sum_i ||W_i||_F^2 [+ ||G||_F^2]), non-increasing over sweeps
+        ny = float(np.sum(y ** 2))
+        hist = [math.sqrt((f + reg * p) / ny) for f, p in objs]
+        history_check(ctx, entry, inputs, hist, what="ridge objective (prefix runs)")
         # least-squares blocks (design matrix as exposed by the implementation's local variables, when available)
         if lscap is not None:
-            recs = [s for s in lscap.solves if "phi" in s]
-            if recs:
-                s = recs[rng.randrange(len(recs))]
-                A, rhs, x = s["phi"], s["rhs"], s["x"]
-                Ym = rhs.reshape(rhs.shape[0], -1); Xm = x.reshape(x.shape[0], -1)
-                if A.ndim == 2 and A.shape[0] == Ym.shape[0] and A.shape[1] == Xm.shape[0] and A.size <= 100 and np.allclose(A.T @ A + reg * np.eye(A.shape[1]), s["a"]):
-                    ctx.add_case("ls", ls_case_lit, dict(A=A, Y=Ym, X=Xm, prev=Xm, lam=reg), dict(entry=entry, inputs=inputs))
-                    ctx.n_ls += 1
+            recs = lscap.solves
+            per = len(recs) // 3
+            cands = [j for j in range(per, len(recs)) if "phi" in recs[j]] if per and len(recs) == 3 * per else []
+            rng.shuffle(cands)
+            for j in cands[:1 if ctx.tier == "quick" else 3]:
+                s0, sp = recs[j], recs[j - per]
+                A, rhs, x, xp = s0["phi"], s0["rhs"], s0["x"], sp["x"]
+                if A.ndim != 2 or x.shape != xp.shape:
+                    continue
+                Ym = rhs.reshape(rhs.shape[0], -1); Xm = x.reshape(x.shape[0], -1); Xp = xp.reshape(x.shape[0], -1)
+                if A.shape[0] == Ym.shape[0] and A.shape[1] == Xm.shape[0] and A.size <= 120 and np.allclose(A.T @ A + reg * np.eye(A.shape[1]), s0["a"]):
+                    ctx.add_case("ls", ls_case_lit, dict(A=A, Y=Ym, X=Xm, prev=Xp, lam=reg), dict(entry=entry, inputs=dict(inputs, block=j)))
+
+
+def PLAN(quick):
+    return [(run_parafac, 48 if quick else 400), (run_nn_hals, 18 if quick else 120), (run_hals_nnls, 36 if quick else 300),
+            (run_tucker, 18 if quick else 120), (run_parafac2, 10 if quick else 60), (run_tr_als, 12 if quick else 80),
+            (run_cmtf, 12 if quick else 80), (run_regressors, 12 if quick else 60)]
 
 
 def run(chk):
@@ -606,30 +795,30 @@ def run(chk):
     C.reset_backends()
     quick = chk.tier == "quick"
     ctx = Ctx(chk, rng, chk.tier)
-    run_parafac(ctx, 18 if quick else 180)
-    run_nn_hals(ctx, 8 if quick else 60)
-    run_hals_nnls(ctx, 14 if quick else 150)
-    run_tucker(ctx, 6 if quick else 50)
-    run_parafac2(ctx, 4 if quick else 40)
-    run_tr_als(ctx, 6 if quick else 50)
-    run_cmtf(ctx, 4 if quick else 40)
-    run_regressors(ctx, 4 if quick else 30)
-    failing, n_eval, broken = C.run_case_shards("C07", HEADER, "case", ctx.cases, shard=4 if quick else 8, timeout=900)
+    for fn, n in PLAN(quick):
+        fn(ctx, n)
+    ctx.select()
+    failing, n_eval, broken = C.run_case_shards("C07", HEADER, "case", ctx.cases, shard=10 if quick else 16, timeout=900)
     chk.checker_cmds.append("coqc (vm_compute, Qops) on generated build/cases/C07/*.v: Corr.C07.failing")
     chk.cov["traces_validated_against_impl"] = n_eval
     chk.cov["exhaustive"] = False
-    chk.cov["block_cases"] = dict(cp_blocks=ctx.n_cp, hals_chains=ctx.n_hals, ls_blocks=ctx.n_ls)
+    chk.cov["block_cases"] = dict(cp_blocks=ctx.n_cp, hals_chains=ctx.n_hals, ls_blocks=ctx.n_ls, float_block_predicates=ctx.py_blocks,
+                                  candidates={k: len(v) for k, v in ctx.cands.items()})
     chk.cov["skipped_ill_conditioned"] = ctx.skipped_illcond
-    chk.cov["rule"] = ("seeded well-conditioned problems (low rank + noise), orders 2-4, rank 1-2(3): every algorithm of the property run with explicit/seeded "
-                       "initialisations and option variants; per run the whole reported history is judged (slack 1e-6 relative-error units); per captured block "
-                       "(first sweep of every mode + one later block; tensors <= 40 entries) ONE model block in exact rationals: system match, solve certificate, "
-                       "exact objective descent; hals_nnls: 2-3 passes step by step; non-trivial = history of length >= 2 / captured block; distinct key = (algorithm, shape, variant[, mode])")
+    chk.cov["rule"] = ("seeded well-conditioned problems (low rank + noise; dense / nearly collinear ones for the line search), orders 2-4, rank 1-3: every algorithm "
+                       "of the property run with explicit/seeded initialisations and option variants (normalize_factors, l2_reg, linesearch, fixed_modes, nn_modes, "
+                       "sparsity, partial_tucker mode subsets, matrix-valued regression targets); per run the whole reported history AND the objective recomputed from "
+                       "the iterates (callbacks / prefix runs) are judged (slack 1e-6 relative-error units); every captured block: float block-objective predicate; "
+                       "a budgeted, variant-balanced subset (first sweep of every mode + one later block; tensors <= 40 entries) gets ONE model block in exact "
+                       "rationals: system match, solve certificate, exact objective descent; hals_nnls: 2-3 passes step by step; least-squares blocks of "
+                       "tensor_ring_als / CMTF / regressors: normal equations + descent from the previous iterate; non-trivial = history of length >= 2 / captured "
+                       "block; distinct key = (algorithm, what, shape, variant[, mode])")
     for b in broken:
         chk.broken.append({"what": "correspondence corr:C07 shard not evaluated", "detail": b})
     for entry, n in ctx.raised.items():
-        chk.notes.append(f"{entry}: {n} run(s) raised and were skipped")
-        if not ctx.judged.get(entry):
-            chk.broken.append({"what": f"{entry} raised on every generated problem: no history could be judged", "detail": n})
+        chk.notes.append(f"{entry}: {n} of {ctx.attempts.get(entry, n)} run(s) raised and were skipped")
+        if not ctx.judged.get(entry) or 2 * n > ctx.attempts.get(entry, n):
+            chk.broken.append({"what": f"{entry} raised on most generated (well-formed) problems: its histories could not be judged", "detail": n})
     for i in sorted(failing):
         kind, descr, payload = ctx.meta[i]
         chk.disagreement(f"corr:C07 {kind} block (Model/Descent.v vs {descr['entry']})", dict(kind=kind, **descr))
@@ -642,8 +831,9 @@ def run(chk):
                     "(system mismatch, solve certificate violated, next iterate differs or exact objective increases)", "C07_block_refinement")
     chk.assumptions = ["block problems well conditioned (condition number of every solved system <= 1e4 on the generated inputs; others skipped and counted)",
                        "tl.solve / tl.lstsq / SVD are oracles: their answers are data, checked against the certificate of the model's system",
-                       "HOOI and PARAFAC2 projections: only the reported histories are judged (Ky Fan / Procrustes optimality not formalised)"]
-    chk.trusted = ["float re-computation of objectives in the Python predicates (NumPy)", "monkeypatched capture of block arguments (copies)"]
+                       "HOOI and PARAFAC2 projections: reported and recomputed histories are judged; Ky Fan / Procrustes optimality are named hypotheses of the _partial theorems"]
+    chk.trusted = ["float re-computation of objectives in the Python predicates (NumPy)", "monkeypatched capture of block arguments (copies)",
+                   "prefix runs with the same seed reproduce the trajectory of the longer run"]
     return chk.finish({})
 
 
